@@ -6,6 +6,9 @@
 //        fault-pool   : ThreadPoolExecutor behind the same injector
 //        stall-inline | stall-pool : directed — producer A parked between index claim and publish for >= 1200
 //                       consumer polls while B publishes + signals behind it and a third thread joins
+//        wrap-inline | wrap-pool : directed — `_events` preset to 2^32 - k while the first consumer is held inside
+//                       the consume function, k signals, one more execute: a counter narrower than 64 bits
+//                       overflows and launches a second consumer
 // Every run: 1-3 producer threads with programs of execute / signal_push_event / join calls on one
 // ConcurrentExecutionQueue<uint64_t> of capacity hint 1-4; the main thread may join() concurrently and
 // always joins at the end (after recovering refused launches).
@@ -371,14 +374,106 @@ static void run_stall(uint64_t seed, const std::string& mode) {
   vrt_dump(stdout);
 }
 
+// ---------------------------------------------------------------------------------------------
+// Directed modes wrap-inline / wrap-pool: an overflow of the event counter is brought within reach.  The
+// first consumer is held inside the consume function; `_events` is then overwritten with 2^32 - k (plain
+// store while nobody else runs; traced as `ev preset_events`), k signals follow, then one more execute().
+// With the 64-bit counter nothing special happens (the counter passes 2^32); with a counter narrowed to
+// 32 bits the k-th signal wraps it to 0 and the execute() launches a second consumer while the first
+// one is still inside the consume function: the two-consumers / overlap oracles fire.
+static void run_wrap(uint64_t seed, const std::string& mode) {
+  Rng rng(seed);
+  bool use_pool = mode.find("pool") != std::string::npos;
+  unsigned k = 1 + (unsigned)rng.below(4);
+  Oracle orc;
+  Q q;
+  ThreadPoolExecutor pool;
+  TestExecutor ex;
+  ex.orc = &orc;
+  ex.is_inline = !use_pool;
+  ex.inner = use_pool ? static_cast<Executor*>(&pool) : static_cast<Executor*>(&InplaceExecutor::instance());
+  bool gate = false, held = false;
+  q.initialize(4, ex, [&](Q::Iterator begin, Q::Iterator end) {
+    vrt_event("cb_begin %zd", (ssize_t)(end - begin));
+    if (orc.in_cb++ != 0) vrt_event("ORACLE overlap consume function entered while another invocation is running");
+    for (auto it = begin; it != end; ++it) {
+      uint64_t id = *it;
+      vrt_event("consume %lu", (unsigned long)id);
+      if (!orc.submitted.count(id)) vrt_event("ORACLE invented item %lu was never submitted", (unsigned long)id);
+      if (!orc.consumed.insert(id).second) vrt_event("ORACLE dup item %lu delivered twice", (unsigned long)id);
+      if (id == 100) {
+        held = true;
+        while (!gate) usleep(1000);   // the first consumer activation lasts as long as the test needs
+        held = false;
+      }
+    }
+    --orc.in_cb;
+    vrt_event("cb_end");
+  });
+  size_t cap = q.capacity();
+  vrt_unname_all();
+  vrt_name(&q._events, sizeof(q._events), "events");
+  vrt_name(&q._queue._next_push_index, sizeof(size_t), "pushidx");
+  vrt_name(&q._queue._next_pop_index, sizeof(size_t), "popidx");
+  vrt_name(&q._queue._slots.futex(0), (cap - 1) * sizeof(Q::Queue::Slot) + sizeof(uint32_t), "slot");
+  auto do_execute = [&](uint64_t id) {
+    orc.submitted.insert(id);
+    vrt_event("push %lu", (unsigned long)id);
+    int rc = q.execute(id);
+    vrt_event("ret execute %d", rc);
+    orc.returned.insert(id);
+  };
+  vrt_yield_time(1);
+  vrt_begin(seed);
+  printf("RUN %lu cap=%zu mode=%s prods=2 workers=%d k=%u events_bytes=%zu\n", (unsigned long)seed, cap, mode.c_str(), use_pool ? 2 : 0, k,
+         sizeof(q._events));
+  if (use_pool) {
+    pool.set_worker_number(2);
+    pool.set_global_capacity(8);
+    pool.start();
+  }
+  std::thread a([&] { do_execute(100); });
+  while (!held) usleep(100);
+  {
+    using EV = decltype(q._events.load());
+    EV v = (EV)((1ull << 32) - k);
+    vrt_event("preset_events %llu", (unsigned long long)v);
+    memcpy((void*)&q._events, &v, sizeof v);
+  }
+  for (unsigned i = 0; i < k; ++i) {
+    vrt_event("signal");
+    int rc = q.signal_push_event();
+    vrt_event("ret signal %d", rc);
+  }
+  std::thread b([&] { do_execute(300); });
+  // give a wrongly launched second consumer every chance to run while the first one is still held
+  for (int i = 0; i < 20; ++i) usleep(1000);
+  gate = true;
+  a.join();
+  b.join();
+  vrt_event("join_begin");
+  q.join();
+  vrt_event("join_end");
+  for (uint64_t id : orc.submitted)
+    if (!orc.consumed.count(id)) {
+      vrt_event("ORACLE lost item %lu was never delivered", (unsigned long)id);
+      break;
+    }
+  if (use_pool) pool.stop();
+  vrt_event("stats steps %lu switches %lu refusals_injected 0", vrt_steps(), vrt_switches());
+  vrt_end();
+  vrt_dump(stdout);
+}
+
 int main(int argc, char** argv) {
   std::string mode = argc > 1 ? argv[1] : "inline";
   uint64_t seed0 = argc > 2 ? strtoull(argv[2], 0, 10) : 1;
   int nruns = argc > 3 ? atoi(argv[3]) : 1;
   bool stall = mode == "stall-inline" || mode == "stall-pool";
-  if (!stall && mode != "inline" && mode != "pool" && mode != "fault-inline" && mode != "fault-pool") return 2;
+  bool wrap = mode == "wrap-inline" || mode == "wrap-pool";
+  if (!stall && !wrap && mode != "inline" && mode != "pool" && mode != "fault-inline" && mode != "fault-pool") return 2;
   for (int i = 0; i < nruns; ++i) {
-    if (stall) run_stall(seed0 + i, mode); else run_one(seed0 + i, mode);
+    if (stall) run_stall(seed0 + i, mode); else if (wrap) run_wrap(seed0 + i, mode); else run_one(seed0 + i, mode);
   }
   return 0;
 }
